@@ -37,6 +37,7 @@ func genHosts(prop string, seed uint64, tier string) Scenario {
 	c.Debug = r.chance(1, 4)
 	c.PreemptN = r.pick(0, 1, 4, 16)
 	c.HintMax = r.pick(0, 0, 20, 200)
+	c.ReuseBuf = r.chance(1, 2)
 	u := world.NewUniverse(*c)
 	nIP4 := len(u.IP4)
 
@@ -536,7 +537,7 @@ func (h *hostsRun) checkState(what string) {
 	var got []string
 	for _, x := range w.S.GetHosts() {
 		x.MACEntry.Row.RLock()
-		got = append(got, hostKey(x.MACEntry.MAC, x.Addr.IP, x.Online))
+		got = append(got, hostKey(x.Addr.MAC, x.Addr.IP, x.Online))
 		x.MACEntry.Row.RUnlock()
 	}
 	sort.Strings(got)
@@ -562,7 +563,7 @@ func (h *hostsRun) checkState(what string) {
 		}
 		if host != nil {
 			host.MACEntry.Row.RLock()
-			k := hostKey(host.MACEntry.MAC, host.Addr.IP, host.Online)
+			k := hostKey(host.Addr.MAC, host.Addr.IP, host.Online)
 			host.MACEntry.Row.RUnlock()
 			if k != fmt.Sprintf("%s %s %v", x.MAC, x.IP, x.Online) {
 				h.violate("C04.findip", what, fmt.Sprintf("FindIP(%s)=%s model=%s %s %v", ip, k, x.MAC, x.IP, x.Online))
